@@ -1503,7 +1503,8 @@ def rule_nested_forms(ctx, rep: Report, rid="S2"):
              ("map<size_t, vector<U>>", lambda: ty("map", ty("size_t"), ty("vector", ty("U")))),
              ("pair<vector<size_t>, map<double, vector<T>>>", lambda: ty("pair", ty("vector", ty("size_t")), ty("map", ty("double"), ty("vector", ty("T"))))),
              ("tuple<T, double, U, vector<T>>", lambda: ty("tuple", ty("T"), ty("double"), ty("U"), ty("vector", ty("T"))))]
-    if len(rec) == 1 and len(func_params(rec[0])) == 1 and len(ps) >= 3:
+    is_generator = any(isinstance(y, (ast.Yield, ast.YieldFrom)) for f_ in rec for y in ast.walk(f_))      # the renaming then happens in the consumer (S14 runs the whole)
+    if len(rec) == 1 and len(func_params(rec[0])) == 1 and len(ps) >= 3 and not is_generator:
         left = []
         try:
             for label, mk in trees:
